@@ -1852,6 +1852,7 @@ MIG_OTHER = (
     "def f():\n    from district42 import schema\n    return schema\n", '"""doc"""\n', "# from district42 import schema\n",
     "if x:\n    y = 2\nelse:\n    y = 3\n", "from district42 import schema as s  # noqa\n", "z = (1,\n     2)\n", "from __future__ import annotations\n",
     't = "\u0441\u0445\u0435\u043c\u0430 \u00e9"\n', "from .valera import validate\n", "from ..district42.errors import DeclarationError as DE\n",
+    "from district42 import optional\n", "\n", "try:\n    from district42 import schema\nexcept ImportError:\n    schema = None\n",
 )
 
 
@@ -1864,7 +1865,9 @@ def mig_import_source(module, names, layout):
         return "from %s import (\n%s)\n" % (module, "".join("    %s,\n" % p for p in parts))
     if layout == 2:
         return "from %s import \\\n    %s\n" % (module, ", \\\n    ".join(parts))
-    return "from %s import (%s,  # comment\n    )\n" % (module, ", ".join(parts))
+    if layout == 3:
+        return "from %s import (%s,  # comment\n    )\n" % (module, ", ".join(parts))
+    return "from %s import (\n%s)  # noqa: F401\n" % (module, "".join("    %s,\n" % p for p in parts))
 
 
 def mig_expected_bindings(module, names):
